@@ -185,14 +185,25 @@ class Ctx:
                     self.report_l("theorem %s depends on non-standard axioms %s" % (n, bad))
                 else:
                     self.discharged.append(n)
-        # forbidden-token scan over the whole lean tree (comments stripped)
-        for root, _, files in os.walk(os.path.join(LEAN_DIR, "PySMT")):
-            for f in files:
-                if f.endswith(".lean"):
-                    src = _strip_comments(open(os.path.join(root, f)).read())
-                    mm = FORBIDDEN.search(src)
-                    if mm:
-                        self.report_l("forbidden token %r in %s" % (mm.group(0), os.path.join(root, f)))
+        # forbidden-token scan over the transitive PySMT imports of the property
+        # modules (comments stripped)
+        seen, todo = set(), list(modules)
+        while todo:
+            m = todo.pop()
+            if m in seen:
+                continue
+            seen.add(m)
+            path = os.path.join(LEAN_DIR, m.replace(".", "/") + ".lean")
+            try:
+                src = _strip_comments(open(path).read())
+            except OSError:
+                continue
+            mm = FORBIDDEN.search(src)
+            if mm:
+                self.report_l("forbidden token %r in %s" % (mm.group(0).strip(), path))
+            for imp in re.findall(r"^\s*(?:public\s+)?import\s+(PySMT\.[\w.]+)", src, flags=re.M):
+                todo.append(imp)
+        self.extra["lean_modules_scanned"] = len(seen)
         if self.tier == "thorough" and ok and os.environ.get("VERIF_NO_LEANCHECKER") != "1":
             p = subprocess.run(["lake", "env", "leanchecker"] + list(modules), cwd=LEAN_DIR,
                                capture_output=True, text=True, timeout=3000)
